@@ -51,8 +51,24 @@ def run_verdicts(exe, cmd, seed, cases, timeout=900, jobs=16):
             crashes.append({'cmd': cmd, 'rc': rc, 'stderr': (err or '')[-300:], 'n_cases': len(c)})
     return ok, fails, crashes
 
-def add_fails(violations, fails, kind):
+def plain_parse_dies(chk, exe, cases, seed):
+    """number of inputs on which a plain single-threaded parse panics or kills the process"""
+    import props as P
+    impl, _, crashes, _ = chk.run_cases(exe, cases, 'arena', seed, want_model=False)
+    n = len(crashes)
+    for il in impl.values():
+        if P.res_kind(P.res_line(il)) == 'panic':
+            n += 1
+    return n
+
+def add_fails(violations, fails, kind, cfg=None, notes=None):
+    """verdict failures become violations; a bare `panic` verdict (the parse itself panicked inside
+    the special run) is a C01/C09/C10 matter and only noted for the other properties"""
     for f in fails[:50]:
+        if cfg is not None and not cfg.get('crash_is_violation') and f['what'].strip().split(' ')[0] == 'panic':
+            if notes is not None and len(notes) < 50:
+                notes.append(f'special run: parse panicked on input {f["id"]} (C01 matter)')
+            continue
         case = {'text': f['inputs'][0] if f['inputs'] else '', 'text_hex': f['inputs_hex'][0] if f['inputs_hex'] else '',
                 'allow_dtd': True, 'nodes_limit': 4294967295, 'id': f['id']}
         if len(f['inputs']) > 1:
@@ -135,6 +151,8 @@ def extra_tie(pid, cfg, exe, chk, cases, seed, violations, broken, res):
         info = chk.case_text(il)
         txt = bytes.fromhex(info.get('text_hex', '')) if info else b''
         n += 1
+        if P.res_kind(P.res_line(il)) == 'panic' and not cfg.get('crash_is_violation'):
+            continue        # a panic is a C01/C09/C10 matter; there is no result to compare here
         for f in cfg.get('impl_checks', ()):
             for msg in f(il, txt):
                 violations.append({'kind': 'impl-oracle', 'what': msg, 'case': info, 'concrete': True})
@@ -152,10 +170,16 @@ def extra_tie(pid, cfg, exe, chk, cases, seed, violations, broken, res):
                                    'case': info, 'impl': repr(a)[:600], 'model': repr(b)[:600]})
         both_ok = P.res_kind(P.res_line(il)) == 'ok' and P.res_kind(P.res_line(ml)) == 'ok'
         for tags in cfg.get('internal', ()):
-            if tags not in ('RES', 'TKRES', 'TK') and not both_ok:
+            proj = None
+            if isinstance(tags, tuple):
+                tags, proj = tags
+            if not both_ok and not (cfg.get('tie_on_rejects') and tags in ('RES', 'TKRES', 'TK')):
                 continue
             a = [l for l in il if l.startswith(tags + ' ') or l == tags]
             b = [l for l in ml if l.startswith(tags + ' ') or l == tags]
+            if proj:
+                a = [proj(l, txt) for l in a]
+                b = [proj(l, txt) for l in b]
             if a != b:
                 broken.append({'obligation': 'tie (internal sections)', 'examples': [{'section': tags, 'case': info, 'impl': a[:2], 'model': b[:2]}]})
                 break
@@ -178,7 +202,7 @@ def sp_verdict(cmd, gens_quick, gens_thorough, kind, also=None):
         for spec in (gens_quick if tier == 'quick' else gens_thorough):
             cases += chk.gen_cases(exe, spec, seed)
         ok, fails, crashes = run_verdicts(exe, cmd, seed, cases)
-        add_fails(violations, fails, kind)
+        add_fails(violations, fails, kind, cfg, notes)
         for c in crashes:
             if cfg.get('crash_is_violation'):
                 violations.append({'kind': 'crash', 'what': f'roxh {cmd} died: {c}', 'concrete': True, 'case': {}})
@@ -234,7 +258,12 @@ def sp_ord(pid, cfg, tier, seed, exe, chk, violations, broken, notes):
                     break
                 seen.add(d); prev = d
     if r.returncode != 0:
-        violations.append({'kind': 'crash', 'what': f'roxh ord died rc={r.returncode} {r.stderr[-200:]}', 'concrete': True, 'case': {}})
+        # a crash that a plain parse of the same inputs reproduces is a C01 matter, not one of C17
+        plain = plain_parse_dies(chk, exe, cases, seed)
+        if plain:
+            notes.append(f'roxh ord died rc={r.returncode}; a plain parse of the same inputs dies too ({plain} inputs): a C01 matter')
+        else:
+            violations.append({'kind': 'crash', 'what': f'roxh ord died rc={r.returncode} {r.stderr[-200:]} (a plain parse of the same inputs does not)', 'concrete': True, 'case': {}})
     return {'evaluations': n, 'extra_distinct': n, 'samples': [{'ord_blocks': n, 'differing': bad}]}
 
 FEATURE_SETS = [None, [], ['rox-std'], ['rox-positions']]
@@ -245,6 +274,7 @@ def sp_features(pid, cfg, tier, seed, exe, chk, violations, broken, notes):
     for spec in cfg['gens'][tier]:
         cases += chk.gen_cases(exe, spec, seed)
     dumps = {}
+    crashed = {}
     for fs in FEATURE_SETS:
         name = 'default' if fs is None else ('none' if not fs else fs[0])
         e, err = (exe, '') if fs is None else chk.build_harness(fs)
@@ -252,9 +282,18 @@ def sp_features(pid, cfg, tier, seed, exe, chk, violations, broken, notes):
             broken.append({'obligation': f'harness build with features {name}', 'detail': err[-1500:]})
             continue
         impl, _, crashes, _ = chk.run_cases(e, cases, 'arena', seed, want_model=False)
-        for cid, why, lines in crashes:
-            violations.append({'kind': 'crash', 'what': f'[{name}] process {why}', 'case': chk.case_text(lines), 'concrete': True})
+        crashed[name] = {cid: (why, lines) for cid, why, lines in crashes}
         dumps[name] = impl
+    # an input that kills the process under every feature set is a C01 matter; one that does so under
+    # some feature sets only is a difference between configurations
+    allc = set().union(*[set(v) for v in crashed.values()]) if crashed else set()
+    for cid in allc:
+        where = [nm for nm, v in crashed.items() if cid in v]
+        if len(where) != len(crashed):
+            why, lines = crashed[where[0]][cid]
+            violations.append({'kind': 'crash', 'what': f'process {why} under feature sets {where} only', 'case': chk.case_text(lines), 'concrete': True})
+    if allc:
+        notes.append(f'{len(allc)} inputs kill the process (C01 matter unless listed as violations)')
     base = dumps.get('default', {})
     n = 0
     for name, impl in dumps.items():
@@ -277,15 +316,15 @@ def sp_features(pid, cfg, tier, seed, exe, chk, violations, broken, notes):
                 pass
     # histories: repeated and interleaved parses
     ok, fails, crashes = run_verdicts(exe, 'repeat', seed, cases[:3000], jobs=4)
-    add_fails(violations, fails, 'impl-oracle')
+    add_fails(violations, fails, 'impl-oracle', cfg, notes)
     return {'evaluations': n + ok, 'extra_distinct': 0, 'samples': [{'feature_sets': list(dumps.keys()), 'cross_comparisons': n, 'repeat_ok': ok}]}
 
 def sp_threads(pid, cfg, tier, seed, exe, chk, violations, broken, notes):
-    # building the harness at all discharges the Send/Sync obligations (cmd_threads instantiates
-    # them) and compiles the crate under -F unsafe_code (harness/.cargo/config.toml)
-    cfgtoml = open(os.path.join(chk.HARNESS, '.cargo', 'config.toml')).read()
-    if 'unsafe_code' not in cfgtoml:
-        broken.append({'obligation': 'unsafe ban', 'detail': 'harness is not built with -F unsafe_code'})
+    # building the C20 harness at all discharges the Send/Sync obligations (cmd_threads, feature
+    # `c20`, instantiates them) and compiles every crate of the build under `-F unsafe_code`
+    # (RUSTFLAGS set by check.build_harness(forbid_unsafe=True) for this property only)
+    if not exe.rstrip('/').endswith(os.path.join('harness-rox-std-rox-positions-c20', 'release', 'roxh')):
+        broken.append({'obligation': 'unsafe ban', 'detail': 'C20 must run on the harness built with the c20 feature and -F unsafe_code'})
     src = open('/repo/src/lib.rs').read()
     notes.append('crate root has #![forbid(unsafe_code)]: ' + str('#![forbid(unsafe_code)]' in src))
     for fn in os.listdir('/repo/src'):
@@ -293,9 +332,15 @@ def sp_threads(pid, cfg, tier, seed, exe, chk, violations, broken, notes):
             violations.append({'kind': 'impl-oracle', 'concrete': True, 'what': f'unsafe appears in src/{fn}', 'case': {'file': fn}})
     cases = chk.gen_cases(exe, ['model', 150 if tier == 'quick' else 2000, 0], seed) + chk.gen_cases(exe, ['fixtures', 20000], seed)
     ok, fails, crashes = run_verdicts(exe, 'threads', seed, cases, jobs=2)
-    add_fails(violations, fails, 'impl-oracle')
-    for c in crashes:
-        violations.append({'kind': 'crash', 'what': f'roxh threads died: {c}', 'concrete': True, 'case': {}})
+    add_fails(violations, fails, 'impl-oracle', cfg, notes)
+    if crashes:
+        # a crash that a plain single-threaded parse of the same inputs reproduces is a C01 matter
+        plain = plain_parse_dies(chk, exe, cases, seed)
+        if plain:
+            notes.append(f'roxh threads died, and so does a single-threaded parse of the same inputs ({plain} inputs): a C01 matter')
+        else:
+            for c in crashes:
+                violations.append({'kind': 'crash', 'what': f'roxh threads died (a single-threaded parse of the same inputs does not): {c}', 'concrete': True, 'case': {}})
     return {'evaluations': ok + len(fails), 'extra_distinct': ok, 'samples': [{'threads': 16, 'documents_ok': ok}]}
 
 M = ['model', 1500, 10]
